@@ -486,3 +486,44 @@ def canon_torch(t):
     if t and t[0] == 'attr' and t[2] == 'ndim':
         return ('call', ('attr', t[1], 'dim'), (), ())
     return t
+
+
+_global_terms: Dict[Tuple[int, str], Optional[Term]] = {}
+
+
+def global_value_term(repo: Repo, qual: str) -> Optional[Term]:
+    """Term of a module-level constant ``NAME = <expression>`` (None when the name is not a
+    single module-level assignment)."""
+    key = (id(repo), qual)
+    if key in _global_terms:
+        return _global_terms[key]
+    _global_terms[key] = None
+    import ast as _ast
+    modname, _, name = qual.rpartition('.')
+    mod = repo.modules.get(modname)
+    if mod is None:
+        return None
+    sts = mod.assigns.get(name, [])
+    if len(sts) != 1 or not isinstance(sts[0], (_ast.Assign, _ast.AnnAssign)) or \
+            sts[0].value is None:
+        return None
+    node = _ast.parse('def _verif_const():\n    pass').body[0]
+    fi = FunctionInfo('_verif_const', modname + '._verif_const', node, mod, None, 'function')
+    try:
+        ev = Evaluator(repo, fi)
+        _global_terms[key] = ev.expr(sts[0].value, State({}))
+    except Exception:       # noqa: BLE001
+        _global_terms[key] = None
+    return _global_terms[key]
+
+
+def resolve_globals(repo: Repo, t):
+    """Module-level constant tables (dict / tuple / list literals) substituted for their names."""
+    if not isinstance(t, tuple):
+        return t
+    if len(t) == 2 and t[0] == 'global' and isinstance(t[1], str) and t[1].startswith('plinio.'):
+        gv = global_value_term(repo, t[1])
+        if gv is not None and gv[0] in ('dict', 'tuple', 'list'):
+            return gv
+        return t
+    return tuple(resolve_globals(repo, x) for x in t)
